@@ -1,5 +1,6 @@
-(** Proofs for C20. *)
-From OCV Require Import Base.Prelude Net.Selector Net.SelectorLemmas Net.Token Net.TokenOracle.
+(** Proofs for C20. The selector invariant [sinv] and the per-call specifications are the ones
+    proved for C21 ([SelectorProofs.v]); here the tokens are added. *)
+From OCV Require Import Base.Prelude Net.Selector Net.SelectorLemmas Net.SelectorProofs Net.Token Net.TokenOracle.
 From Coq Require Import ZifyBool ZifyNat.
 Open Scope Z_scope.
 
@@ -10,161 +11,125 @@ Proof.
   rewrite Z.mod_mod by lia. apply Z.mod_small. lia.
 Qed.
 
-(** * The selector with one poller and read interest only, against a binding coroutine <-> descriptor *)
+(** * What the selector calls do to the OS table (one poller) *)
 
-Definition ent (c : Z) : kent := {| k_r := true; k_w := false; k_tok := encode c |}.
+(** every entry of [tb'] is an entry of [tb] ... *)
+Definition tle (tb tb' : ktable) : Prop := forall x e, aget x tb' = Some e -> aget x tb = Some e.
+(** ... or the entry of [fd], carrying the token of [c] *)
+Definition tstep (fd c : Z) (tb tb' : ktable) : Prop :=
+  forall x e, aget x tb' = Some e -> aget x tb = Some e \/ (x = fd /\ k_tok e = encode c).
 
-Record sel_ok (nfd : Z) (s : sel) (b : list (Z * Z)) : Prop := {
-  so_kern : exists tb, s_kern s = [tb];
-  so_wrec : s_wrec s = [];
-  so_open : forall fd, 0 <= fd < nfd -> zmem fd (s_open s) = true;
-  so_fwd : forall c fd, aget c b = Some fd -> aget fd (tbl s 0) = Some (ent c);
-  so_bwd : forall fd e, aget fd (tbl s 0) = Some e -> exists c, aget c b = Some fd;
-  so_rrec : forall fd, zmem fd (s_rrec s) = match aget fd (tbl s 0) with Some _ => true | None => false end
-}.
+Lemma tle_refl : forall tb, tle tb tb.
+Proof. intros tb x e H. exact H. Qed.
 
-Lemma sel_ok_ext : forall nfd s b b', (forall k, aget k b' = aget k b) -> sel_ok nfd s b -> sel_ok nfd s b'.
+Lemma tle_arem : forall tb fd, tle tb (arem fd tb).
+Proof. intros tb fd x e H. rewrite aget_arem in H. destruct (x =? fd); [discriminate|exact H]. Qed.
+
+Lemma tstep_refl : forall fd c tb, tstep fd c tb tb.
+Proof. intros fd c tb x e H. now left. Qed.
+
+Lemma tstep_aset : forall fd c tb r w, tstep fd c tb (aset fd {| k_r := r; k_w := w; k_tok := encode c |} tb).
 Proof.
-  intros nfd s b b' E [K W O F B R]. constructor; auto.
-  - intros c fd H. rewrite E in H. auto.
-  - intros fd e H. destruct (B fd e H) as [c Hc]. exists c. now rewrite E.
+  intros fd c tb r w x e H. rewrite aget_aset in H. destruct (x =? fd) eqn:E.
+  - right. apply Z.eqb_eq in E. inversion H; subst. split; reflexivity.
+  - now left.
 Qed.
 
-Lemma sel_ok_mark : forall nfd s b i fd, sel_ok nfd s b -> sel_ok nfd (mark s i fd) b.
+Lemma tbl_one : forall s tb, s_kern s = [tb] -> tbl s 0 = tb.
+Proof. intros s tb H. unfold tbl. now rewrite H. Qed.
+
+Lemma entry_of_rec : forall s tb fd, sinv s -> s_kern s = [tb] ->
+  zmem fd (s_rrec s) || zmem fd (s_wrec s) = true -> exists e, aget fd tb = Some e.
 Proof.
-  intros nfd s b i fd H. unfold mark. destruct (coherent s i fd); [exact H|].
-  destruct H as [K W O F B R]. constructor; auto.
+  intros s tb fd Hs K H. destruct (aget fd tb) as [e|] eqn:G; [now exists e|].
+  rewrite <- (tbl_one s tb K) in G. apply (absent_iff s fd Hs) in G. destruct G as [G1 G2].
+  rewrite G1, G2 in H. discriminate.
 Qed.
 
-Lemma tbl0_with : forall s tb t, s_kern s = [tb] -> nth 0%nat (lset (s_kern s) 0 t) [] = t.
-Proof. intros s tb t H. rewrite H. reflexivity. Qed.
-
-Lemma add_read_ok : forall nfd s b c fd,
-  sel_ok nfd s b -> 0 <= fd < nfd -> bound_ok b c fd = true ->
-  exists s', add_read_event s 0 fd c = (true, s') /\ sel_ok nfd s' (aset c fd b)
-             /\ aget fd (tbl s' 0) = Some (ent c).
+Lemma add_read_full : forall s tb fd c, sinv s -> s_kern s = [tb] -> zmem fd (s_open s) = true ->
+  exists s', add_read_event s 0 fd c = (true, s') /\ tstep fd c tb (tbl s' 0).
 Proof.
-  intros nfd s0 b c fd H0 Hfd Hb. unfold add_read_event.
-  pose proof (sel_ok_mark nfd s0 b 0%nat fd H0) as H. set (s := mark s0 0 fd) in *. clearbody s. clear H0 s0.
-  destruct H as [K W O F B R].
+  intros s tb fd c Hs K Op. unfold add_read_event. rewrite (mark_id s fd Hs).
   destruct (zmem fd (s_rrec s)) eqn:Er.
-  - exists s. split; [reflexivity|]. rewrite R in Er.
-    destruct (aget fd (tbl s 0)) as [k|] eqn:G; [|discriminate].
-    destruct (B fd k G) as [c' Hc']. unfold bound_ok in Hb.
-    destruct (aget c b) eqn:Gc.
-    + apply Z.eqb_eq in Hb; subst z. split.
-      * apply sel_ok_ext with (b := b); [|constructor; auto].
-        intros k0. rewrite aget_aset. destruct (k0 =? c) eqn:E; [|reflexivity].
-        apply Z.eqb_eq in E; subst. now rewrite Gc.
-      * rewrite <- G. exact (F c fd Gc).
-    + apply negb_true_iff in Hb. exfalso. exact (existsb_snd_false b fd Hb c' Hc').
-  - rewrite W. cbn [zmem]. unfold register, k_add. rewrite (O fd Hfd). cbn [negb].
-    rewrite R in Er. destruct (aget fd (tbl s 0)) eqn:G; [discriminate|].
-    assert (Hc : aget c b = None /\ forall c', aget c' b <> Some fd).
-    { unfold bound_ok in Hb. destruct (aget c b) eqn:Gc.
-      - apply Z.eqb_eq in Hb; subst z. rewrite (F c fd Gc) in G. discriminate.
-      - apply negb_true_iff in Hb. split; [reflexivity|]. exact (existsb_snd_false b fd Hb). }
-    destruct Hc as [Hc1 Hc2].
-    destruct K as [tb K].
-    eexists. split; [reflexivity|].
-    assert (T : forall x, aget x (tbl (with_r
-                  (with_tokfd (with_tbl s 0 (aset fd (ent c) (tbl s 0))) (aset c fd (s_tokfd s)))
-                  (zadd fd (s_rrec s)) (aset fd c (s_rtok s))) 0)
-                = if x =? fd then Some (ent c) else aget x (tbl s 0)).
-    { intros x. unfold tbl at 1. cbn [s_kern with_r with_tokfd with_tbl].
-      rewrite (tbl0_with s tb _ K). apply aget_aset. }
-    split; [constructor|].
-    + exists (aset fd (ent c) (tbl s 0)). cbn [s_kern with_r with_tokfd with_tbl]. rewrite K. reflexivity.
-    + exact W.
-    + exact O.
-    + intros c' fd' H'. rewrite T. rewrite aget_aset in H'.
-      destruct (c' =? c) eqn:E.
-      * apply Z.eqb_eq in E; subst c'. inversion H'; subst fd'. now rewrite Z.eqb_refl.
-      * destruct (fd' =? fd) eqn:E2.
-        -- apply Z.eqb_eq in E2; subst fd'. exfalso. exact (Hc2 c' H').
-        -- exact (F c' fd' H').
-    + intros fd' e H'. rewrite T in H'. destruct (fd' =? fd) eqn:E2.
-      * apply Z.eqb_eq in E2; subst fd'. exists c. rewrite aget_aset. now rewrite Z.eqb_refl.
-      * destruct (B fd' e H') as [c' Hc']. exists c'. rewrite aget_aset.
-        destruct (c' =? c) eqn:E; [|exact Hc'].
-        apply Z.eqb_eq in E; subst c'. congruence.
-    + intros fd'. rewrite T. cbn [s_rrec with_r]. rewrite zmem_zadd, R.
-      destruct (fd' =? fd); reflexivity.
-    + rewrite T. now rewrite Z.eqb_refl.
-Qed.
-
-Lemma deliver_ok : forall nfd s b tok r w, sel_ok nfd s b -> sel_ok nfd (deliver s tok r w) b.
-Proof.
-  intros nfd s b tok r w [K W O F B R]. unfold deliver.
-  destruct r, w; constructor; auto.
-Qed.
-
-Lemma deliver_tbl : forall s tok r w i, tbl (deliver s tok r w) i = tbl s i.
-Proof. intros s tok r w i. unfold deliver. destruct r, w; reflexivity. Qed.
-
-Lemma sel_ok_after_del : forall nfd s b fd sf tb,
-  sel_ok nfd s b -> ukeys b -> s_kern s = [tb] ->
-  s_kern sf = [arem fd tb] -> s_rrec sf = zrem fd (s_rrec s) -> s_wrec sf = [] -> s_open sf = s_open s ->
-  sel_ok nfd sf (filter (fun p => negb (snd p =? fd)) b).
-Proof.
-  intros nfd s b fd sf tb [K W O F B R] Ub Ks E1 E3 E4 E2.
-  assert (Tb : tbl s 0 = tb) by (unfold tbl; now rewrite Ks).
-  assert (T : forall x, aget x (tbl sf 0) = if x =? fd then None else aget x (tbl s 0)).
-  { intros x. unfold tbl at 1. rewrite E1. cbn [nth]. rewrite Tb. apply aget_arem. }
-  constructor.
-  - now exists (arem fd tb).
-  - exact E4.
-  - rewrite E2. exact O.
-  - intros c fd' H'. rewrite T. rewrite (aget_filter_snd b fd c Ub) in H'.
-    destruct (aget c b) as [f|] eqn:Gc; [|discriminate].
-    destruct (f =? fd) eqn:Ef; [discriminate|]. inversion H'; subst fd'. rewrite Ef. exact (F c f Gc).
-  - intros fd' e' H'. rewrite T in H'. destruct (fd' =? fd) eqn:Ef; [discriminate|].
-    destruct (B fd' e' H') as [c Hc]. exists c. rewrite (aget_filter_snd b fd c Ub), Hc, Ef. reflexivity.
-  - intros fd'. rewrite T, E3, zmem_zrem, R. destruct (fd' =? fd); reflexivity.
-Qed.
-
-Lemma del_ok : forall nfd s b fd,
-  sel_ok nfd s b -> ukeys b -> 0 <= fd < nfd ->
-  exists s', el_del_event s fd = (true, s') /\ sel_ok nfd s' (filter (fun p => negb (snd p =? fd)) b).
-Proof.
-  intros nfd s0 b fd H0 Ub Hfd. unfold el_del_event, loops.
-  destruct (so_kern _ _ _ H0) as [tb0 K0]. rewrite K0. cbn [List.length all_loops].
-  unfold del_event.
-  pose proof (sel_ok_mark nfd s0 b 0%nat fd H0) as H. set (s := mark s0 0 fd) in *. clearbody s. clear H0 K0 tb0 s0.
-  pose proof H as Hs. destruct H as [K W O F B R]. destruct K as [tb K].
-  assert (Tb : tbl s 0 = tb) by (unfold tbl; now rewrite K).
-  unfold del_event_core. rewrite W. cbn [zmem]. rewrite orb_false_r.
-  destruct (zmem fd (s_rrec s)) eqn:Er.
-  - rewrite R in Er. destruct (aget fd (tbl s 0)) as [e|] eqn:G; [|discriminate].
-    assert (FIN : forall s1 tok, s_kern s1 = s_kern s -> s_open s1 = s_open s -> s_rrec s1 = s_rrec s ->
-              s_wrec s1 = s_wrec s ->
-              exists s', (let '(ok, s2) := deregister s1 0 fd tok in
-                          if ok then (true, with_w (with_r s2 (zrem fd (s_rrec s2)) (s_rtok s2)) (zrem fd (s_wrec s2)) (s_wtok s2))
-                          else (false, s2)) = (true, s')
-                         /\ sel_ok nfd s' (filter (fun p => negb (snd p =? fd)) b)).
-    { intros s1 tok E1 E2 E3 E4. unfold deregister, k_del. unfold tbl at 1. rewrite E1, E2.
-      fold (tbl s 0). rewrite (O fd Hfd). cbn [negb]. rewrite G.
+  - exists s. split; [reflexivity|]. rewrite (tbl_one s tb K). apply tstep_refl.
+  - destruct (zmem fd (s_wrec s)) eqn:Ew.
+    + destruct (entry_of_rec s tb fd Hs K) as [e G]; [now rewrite Ew, orb_true_r|].
+      unfold rereg_or_reg, reregister, k_mod. rewrite (tbl_one s tb K), Op, G. cbn [negb].
       eexists. split; [reflexivity|].
-      apply (sel_ok_after_del nfd s b fd _ tb Hs Ub K).
-      - cbn [s_kern with_w with_r with_tokfd with_tbl]. unfold tbl. rewrite E1, ?K. reflexivity.
-      - cbn [s_rrec with_w with_r with_tokfd with_tbl]. now rewrite E3.
-      - cbn [s_wrec with_w with_r with_tokfd with_tbl]. now rewrite E4, W.
-      - cbn [s_open with_w with_r with_tokfd with_tbl]. exact E2. }
-    destruct (aget fd (s_rtok s)) as [t1|]; [|destruct (aget fd (s_wtok s)) as [t2|]].
-    + destruct (FIN (with_r s (s_rrec s) (arem fd (s_rtok s))) t1) as [s' [E S]]; try reflexivity.
-      exists s'. rewrite E. split; [reflexivity|exact S].
-    + destruct (FIN (with_w s [] (arem fd (s_wtok s))) t2) as [s' [E S]]; try reflexivity;
-        try (cbn [s_wrec with_w]; now rewrite W).
-      exists s'. rewrite E. split; [reflexivity|exact S].
-    + destruct (FIN s 0) as [s' [E S]]; try reflexivity.
-      exists s'. rewrite E. split; [reflexivity|exact S].
-  - exists s. split; [reflexivity|].
-    rewrite R in Er. destruct (aget fd (tbl s 0)) as [e|] eqn:G; [discriminate|].
-    apply sel_ok_ext with (b := b); [|exact Hs].
-    intros k. rewrite (aget_filter_snd b fd k Ub). destruct (aget k b) as [f|] eqn:Gk; [|reflexivity].
-    destruct (f =? fd) eqn:Ef; [|reflexivity]. apply Z.eqb_eq in Ef; subst f.
-    rewrite (F k fd Gk) in G. discriminate.
+      unfold tbl. cbn [s_kern with_r with_tokfd with_tbl]. rewrite K. cbn [lset nth]. apply tstep_aset.
+    + assert (G : aget fd tb = None).
+      { rewrite <- (tbl_one s tb K). apply (absent_iff s fd Hs). now split. }
+      unfold register, k_add. rewrite (tbl_one s tb K), Op, G. cbn [negb].
+      eexists. split; [reflexivity|].
+      unfold tbl. cbn [s_kern with_r with_tokfd with_tbl]. rewrite K. cbn [lset nth]. apply tstep_aset.
 Qed.
+
+Lemma add_write_full : forall s tb fd c, sinv s -> s_kern s = [tb] -> zmem fd (s_open s) = true ->
+  exists s', add_write_event s 0 fd c = (true, s') /\ tstep fd c tb (tbl s' 0).
+Proof.
+  intros s tb fd c Hs K Op. unfold add_write_event. rewrite (mark_id s fd Hs).
+  destruct (zmem fd (s_wrec s)) eqn:Ew.
+  - exists s. split; [reflexivity|]. rewrite (tbl_one s tb K). apply tstep_refl.
+  - destruct (zmem fd (s_rrec s)) eqn:Er.
+    + destruct (entry_of_rec s tb fd Hs K) as [e G]; [now rewrite Er|].
+      unfold rereg_or_reg, reregister, k_mod. rewrite (tbl_one s tb K), Op, G. cbn [negb].
+      eexists. split; [reflexivity|].
+      unfold tbl. cbn [s_kern with_w with_tokfd with_tbl]. rewrite K. cbn [lset nth]. apply tstep_aset.
+    + assert (G : aget fd tb = None).
+      { rewrite <- (tbl_one s tb K). apply (absent_iff s fd Hs). now split. }
+      unfold register, k_add. rewrite (tbl_one s tb K), Op, G. cbn [negb].
+      eexists. split; [reflexivity|].
+      unfold tbl. cbn [s_kern with_w with_tokfd with_tbl]. rewrite K. cbn [lset nth]. apply tstep_aset.
+Qed.
+
+Lemma del_core_tbl : forall s tb fd s', s_kern s = [tb] -> del_event_core s 0 fd = (true, s') -> tle tb (tbl s' 0).
+Proof.
+  intros s tb fd s' K E. unfold del_event_core in E.
+  destruct (zmem fd (s_rrec s) || zmem fd (s_wrec s)).
+  - cbv zeta in E. unfold deregister, k_del in E.
+    unfold tbl in E at 1. cbn [s_kern s_open with_w with_r] in E. rewrite K in E. cbn [nth] in E.
+    destruct (negb (zmem fd (s_open s))); [discriminate|].
+    destruct (aget fd tb); [|discriminate].
+    inversion E; subst s'. clear E.
+    unfold tbl. cbn [s_kern with_w with_r with_tokfd with_tbl]. rewrite K. cbn [lset nth]. apply tle_arem.
+  - inversion E; subst s'. rewrite (tbl_one s tb K). apply tle_refl.
+Qed.
+
+Lemma el_del_event_tbl : forall s tb fd s', sinv s -> s_kern s = [tb] ->
+  el_del_event s fd = (true, s') -> tle tb (tbl s' 0).
+Proof.
+  intros s tb fd s' Hs K E. unfold el_del_event in E. rewrite (all_loops_one _ s (loops_one s tb K)) in E.
+  unfold del_event in E. rewrite (mark_id s fd Hs) in E.
+  destruct (del_event_core s 0 fd) as [[|] s1] eqn:Ec; [|discriminate].
+  inversion E; subst s'. exact (del_core_tbl s tb fd s1 K Ec).
+Qed.
+
+Lemma el_del_read_tbl : forall s tb fd s', sinv s -> s_kern s = [tb] -> zmem fd (s_wrec s) = false ->
+  el_del_read_event s fd = (true, s') -> tle tb (tbl s' 0).
+Proof.
+  intros s tb fd s' Hs K W E. unfold el_del_read_event in E. rewrite (all_loops_one _ s (loops_one s tb K)) in E.
+  unfold del_read_event in E. rewrite (mark_id s fd Hs), W in E.
+  destruct (zmem fd (s_rrec s)).
+  - destruct (del_event_core s 0 fd) as [[|] s1] eqn:Ec; [|discriminate].
+    inversion E; subst s'. exact (del_core_tbl s tb fd s1 K Ec).
+  - inversion E; subst s'. rewrite (tbl_one s tb K). apply tle_refl.
+Qed.
+
+Lemma el_del_write_tbl : forall s tb fd s', sinv s -> s_kern s = [tb] -> zmem fd (s_rrec s) = false ->
+  el_del_write_event s fd = (true, s') -> tle tb (tbl s' 0).
+Proof.
+  intros s tb fd s' Hs K R E. unfold el_del_write_event in E. rewrite (all_loops_one _ s (loops_one s tb K)) in E.
+  unfold del_write_event in E. rewrite (mark_id s fd Hs), R in E.
+  destruct (zmem fd (s_wrec s)).
+  - destruct (del_event_core s 0 fd) as [[|] s1] eqn:Ec; [|discriminate].
+    inversion E; subst s'. exact (del_core_tbl s tb fd s1 K Ec).
+  - inversion E; subst s'. rewrite (tbl_one s tb K). apply tle_refl.
+Qed.
+
+Lemma deliver_proj : forall s tok r w,
+  s_open (deliver s tok r w) = s_open s /\ s_kern (deliver s tok r w) = s_kern s
+  /\ s_rrec (deliver s tok r w) = s_rrec s /\ s_wrec (deliver s tok r w) = s_wrec s.
+Proof. intros s tok r w. unfold deliver. destruct r, w; repeat split. Qed.
 
 (** * Tracker lemmas *)
 
@@ -175,17 +140,64 @@ Proof.
 Qed.
 
 Lemma aget_void_fd : forall fd c t,
-  aget c (void_fd fd t) = match aget c t with Some f => Some (if f =? fd then VOID else f) | None => None end.
+  aget c (void_fd fd t) =
+  match aget c t with Some (f, w) => Some (if f =? fd then VOID else f, w) | None => None end.
 Proof.
-  intros fd c t. induction t as [|[a f] t IH]; cbn [void_fd aget]; [reflexivity|].
+  intros fd c t. unfold void_fd. induction t as [|[a [f w]] t IH]; cbn [map aget]; [reflexivity|].
+  destruct (c =? a); [reflexivity|exact IH].
+Qed.
+
+Lemma aget_void_dir : forall fd d c t,
+  aget c (void_dir fd d t) =
+  match aget c t with
+  | Some (f, w) => Some (if (f =? fd) && Bool.eqb w d then VOID else f, w)
+  | None => None
+  end.
+Proof.
+  intros fd d c t. unfold void_dir. induction t as [|[a [f w]] t IH]; cbn [map aget]; [reflexivity|].
   destruct (c =? a); [reflexivity|exact IH].
 Qed.
 
 Lemma keys_void_fd : forall fd t, map fst (void_fd fd t) = map fst t.
-Proof. intros fd t. induction t as [|[a f] t IH]; cbn [void_fd map fst]; [reflexivity|]. now rewrite IH. Qed.
+Proof.
+  intros fd t. unfold void_fd. induction t as [|[a [f w]] t IH]; cbn [map fst]; [reflexivity|]. now rewrite IH.
+Qed.
+
+Lemma keys_void_dir : forall fd d t, map fst (void_dir fd d t) = map fst t.
+Proof.
+  intros fd d t. unfold void_dir. induction t as [|[a [f w]] t IH]; cbn [map fst]; [reflexivity|]. now rewrite IH.
+Qed.
 
 Lemma ukeys_void_fd : forall fd t, ukeys t -> ukeys (void_fd fd t).
 Proof. intros fd t U. unfold ukeys. now rewrite keys_void_fd. Qed.
+
+Lemma ukeys_void_dir : forall fd d t, ukeys t -> ukeys (void_dir fd d t).
+Proof. intros fd d t U. unfold ukeys. now rewrite keys_void_dir. Qed.
+
+(** who is in [waiters_on] *)
+Lemma waiters_on_spec : forall fd d t c,
+  In c (waiters_on fd d t) <-> exists f w, In (c, (f, w)) t /\ f = fd /\ w = d.
+Proof.
+  intros fd d t c. unfold waiters_on. rewrite in_map_iff. split.
+  - intros [[c' [f w]] [E H]]. cbn [fst] in E. subst c'. apply filter_In in H as [H1 H2].
+    unfold waits_for in H2. cbn [fst snd] in H2. apply andb_true_iff in H2 as [H2 H3].
+    apply Z.eqb_eq in H2. apply eqb_prop in H3. now exists f, w.
+  - intros [f [w [H [E1 E2]]]]. subst f w. exists (c, (fd, d)). split; [reflexivity|].
+    apply filter_In. split; [exact H|]. unfold waits_for. cbn [fst snd]. now rewrite Z.eqb_refl, eqb_reflx.
+Qed.
+
+Lemma waiters_in : forall fd d t c, aget c t = Some (fd, d) -> In c (waiters_on fd d t).
+Proof.
+  intros fd d t c H. apply waiters_on_spec. exists fd, d. split; [|split; reflexivity]. now apply aget_In.
+Qed.
+
+Lemma waiters_none : forall fd d t, ukeys t -> (forall c, aget c t <> Some (fd, d)) -> waiters_on fd d t = [].
+Proof.
+  intros fd d t U H. destruct (waiters_on fd d t) as [|c r] eqn:E; [reflexivity|]. exfalso.
+  assert (I : In c (waiters_on fd d t)) by (rewrite E; now left).
+  apply waiters_on_spec in I. destruct I as [f [w [I [E1 E2]]]]. subst f w.
+  apply (H c). now apply In_aget.
+Qed.
 
 Lemma aget_head_notin : forall {V} a (l : list (Z * V)), ~ In a (map fst l) -> aget a l = None.
 Proof.
@@ -193,49 +205,26 @@ Proof.
   exfalso. apply H. apply aget_In in G. apply (in_map fst) in G. exact G.
 Qed.
 
-Lemma waiters_none : forall fd t, ukeys t -> (forall c, aget c t <> Some fd) -> waiters_on fd t = [].
+Lemma waiters_one : forall fd d t c, ukeys t -> aget c t = Some (fd, d) ->
+  (forall c', aget c' t = Some (fd, d) -> c' = c) -> waiters_on fd d t = [c].
 Proof.
-  intros fd t. unfold waiters_on. induction t as [|[a f] t IH]; intros U H; [reflexivity|].
+  intros fd d t c. unfold waiters_on. induction t as [|[a [f w]] t IH]; intros U G H; [discriminate|].
   unfold ukeys in U. cbn [map fst] in U. inversion U as [|x xs Hn Hd]; subst.
-  cbn [filter snd]. destruct (f =? fd) eqn:E.
-  - exfalso. apply (H a). cbn [aget]. rewrite Z.eqb_refl. apply Z.eqb_eq in E. now subst.
-  - apply IH; [exact Hd|]. intros c Hc. apply (H c). cbn [aget].
-    destruct (c =? a) eqn:Eca; [|exact Hc].
-    apply Z.eqb_eq in Eca; subst c. rewrite (aget_head_notin a t Hn) in Hc. discriminate.
-Qed.
-
-Lemma waiters_one : forall fd t c, ukeys t -> aget c t = Some fd ->
-  (forall c', aget c' t = Some fd -> c' = c) -> waiters_on fd t = [c].
-Proof.
-  intros fd t c. unfold waiters_on. induction t as [|[a f] t IH]; intros U G H; [discriminate|].
-  unfold ukeys in U. cbn [map fst] in U. inversion U as [|x xs Hn Hd]; subst.
-  cbn [filter snd]. cbn [aget] in G. destruct (f =? fd) eqn:E.
-  - apply Z.eqb_eq in E; subst f.
+  cbn [filter]. unfold waits_for at 1. cbn [fst snd]. cbn [aget] in G.
+  destruct ((f =? fd) && Bool.eqb w d) eqn:E.
+  - apply andb_true_iff in E as [E1 E2]. apply Z.eqb_eq in E1. apply eqb_prop in E2. subst f w.
     assert (a = c). { apply H. cbn [aget]. now rewrite Z.eqb_refl. } subst a.
-    cbn [map fst]. f_equal. apply (waiters_none fd t Hd).
+    cbn [map fst]. f_equal. apply (waiters_none fd d t Hd).
     intros c' Hc'. assert (c' = c).
     { apply H. cbn [aget]. destruct (c' =? c) eqn:E'; [|exact Hc'].
       apply Z.eqb_eq in E'; subst c'. rewrite (aget_head_notin c t Hn) in Hc'. discriminate. }
     subst c'. rewrite (aget_head_notin c t Hn) in Hc'. discriminate.
   - destruct (c =? a) eqn:Eca.
-    + inversion G; subst f. now rewrite Z.eqb_refl in E.
+    + inversion G; subst f w. now rewrite Z.eqb_refl, eqb_reflx in E.
     + apply IH; [exact Hd|exact G|]. intros c' Hc'. apply H. cbn [aget].
       destruct (c' =? a) eqn:E'; [|exact Hc'].
       apply Z.eqb_eq in E'; subst c'. rewrite (aget_head_notin a t Hn) in Hc'. discriminate.
 Qed.
-
-(** * The invariant for paired histories *)
-
-Record Inv (nfd : Z) (l : loop) (t b : list (Z * Z)) : Prop := {
-  i_sel : sel_ok nfd (l_sel l) b;
-  i_sys : l_sys l = t;
-  i_ub : ukeys b;
-  i_ut : ukeys t;
-  i_inj : forall c1 c2 f, aget c1 b = Some f -> aget c2 b = Some f -> c1 = c2;
-  i_live : forall c f, aget c t = Some f -> f <> VOID -> aget c b = Some f /\ zmem c (l_cotok l) = true;
-  i_void : forall c, aget c t = Some VOID -> aget c b = None;
-  i_rng : forall c f, aget c b = Some f -> 0 <= c < 2 ^ 64 /\ 0 <= f < nfd
-}.
 
 Lemma in_u64_range : forall c, in_u64 c = true -> 0 <= c < 2 ^ 64.
 Proof.
@@ -245,18 +234,52 @@ Qed.
 Lemma same_set_refl1 : forall c, same_set [c] [c] = true.
 Proof. intros c. unfold same_set, subset. cbn. now rewrite Z.eqb_refl. Qed.
 
-(** what the binding looks like after a wait *)
-Lemma bind_wait : forall nfd l t b c fd,
-  Inv nfd l t b -> in_u64 c = true -> 0 <= fd < nfd -> bound_ok b c fd = true ->
-  ukeys (aset c fd b)
-  /\ (forall c1 c2 f, aget c1 (aset c fd b) = Some f -> aget c2 (aset c fd b) = Some f -> c1 = c2)
-  /\ (forall c' f, aget c' (aset c fd b) = Some f -> 0 <= c' < 2 ^ 64 /\ 0 <= f < nfd).
+Lemma aget_unbind : forall (b : list (Z * Z)) fd k, ukeys b ->
+  aget k (unbind fd b) = match aget k b with Some f => if f =? fd then None else Some f | None => None end.
+Proof. intros b fd k U. unfold unbind. now apply aget_filter_snd. Qed.
+
+(** * The invariant for histories outside the recorded findings *)
+
+Definition binj (b : list (Z * Z)) : Prop :=
+  forall c1 c2 f, aget c1 b = Some f -> aget c2 b = Some f -> c1 = c2.
+Definition brng (nfd : Z) (b : list (Z * Z)) : Prop :=
+  forall c f, aget c b = Some f -> 0 <= c < 2 ^ 64 /\ 0 <= f < nfd.
+Definition nreg (n : nd) (d : bool) : list Z := if d then n_w n else n_r n.
+
+Record Inv (nfd : Z) (l : loop) (t : list (Z * want)) (n : nd) : Prop := {
+  i_sinv : sinv (l_sel l);
+  i_sys : l_sys l = t;
+  i_ut : ukeys t;
+  i_ub : ukeys (n_bind n);
+  i_inj : binj (n_bind n);
+  i_rng : brng nfd (n_bind n);
+  i_open : forall fd, 0 <= fd < nfd -> zmem fd (s_open (l_sel l)) = negb (zmem fd (n_closed n));
+  i_rrec : forall fd, zmem fd (s_rrec (l_sel l)) = zmem fd (n_r n);
+  i_wrec : forall fd, zmem fd (s_wrec (l_sel l)) = zmem fd (n_w n);
+  i_tok : forall fd e, aget fd (tbl (l_sel l) 0) = Some e ->
+          exists c, aget c (n_bind n) = Some fd /\ k_tok e = encode c;
+  i_live : forall c f w, aget c t = Some (f, w) -> f <> VOID ->
+           aget c (n_bind n) = Some f /\ zmem c (l_cotok l) = true /\ zmem f (nreg n w) = true;
+  i_void : forall c w, aget c t = Some (VOID, w) -> aget c (n_bind n) = None
+}.
+
+Lemma bound_owner : forall b c fd c', binj b -> bound_ok b c fd = true -> aget c' b = Some fd -> c' = c.
 Proof.
-  intros nfd l t b c fd I Hc Hfd Hb. destruct I as [S Y Ub Ut J L V R].
+  intros b c fd c' J Hb G. unfold bound_ok in Hb. destruct (aget c b) as [f|] eqn:Gc.
+  - apply Z.eqb_eq in Hb; subst f. exact (J c' c fd G Gc).
+  - apply negb_true_iff in Hb. exfalso. exact (existsb_snd_false b fd Hb c' G).
+Qed.
+
+Lemma bound_self : forall b c fd x, bound_ok b c fd = true -> aget c b = Some x -> x = fd.
+Proof. intros b c fd x Hb G. unfold bound_ok in Hb. rewrite G in Hb. now apply Z.eqb_eq in Hb. Qed.
+
+Lemma bind_wait : forall nfd b c fd,
+  ukeys b -> binj b -> brng nfd b -> in_u64 c = true -> 0 <= fd < nfd -> bound_ok b c fd = true ->
+  ukeys (aset c fd b) /\ binj (aset c fd b) /\ brng nfd (aset c fd b).
+Proof.
+  intros nfd b c fd Ub J R Hc Hfd Hb.
   assert (Hfree : forall c', c' <> c -> aget c' b <> Some fd).
-  { intros c' Hne G. unfold bound_ok in Hb. destruct (aget c b) as [f0|] eqn:Gc.
-    - apply Z.eqb_eq in Hb; subst f0. apply Hne. exact (J c' c fd G Gc).
-    - apply negb_true_iff in Hb. exact (existsb_snd_false b fd Hb c' G). }
+  { intros c' Hne G. apply Hne. exact (bound_owner b c fd c' J Hb G). }
   split; [now apply ukeys_aset|]. split.
   - intros c1 c2 f H1 H2. rewrite aget_aset in H1, H2.
     destruct (c1 =? c) eqn:E1, (c2 =? c) eqn:E2.
@@ -269,165 +292,394 @@ Proof.
     + exact (R c' f H).
 Qed.
 
-Lemma step_inv : forall nfd l t b o,
-  Inv nfd l t b -> wf_op nfd t o = true -> fst (pair_step b o) = true ->
+(** [EventLoop::token] + [add_read_event] / [add_write_event] of a wait inside the premises *)
+Lemma begin_wait_inv : forall nfd l t n d c fd,
+  Inv nfd l t n -> in_u64 c = true -> 0 <= fd < nfd -> aget c t = None ->
+  bound_ok (n_bind n) c fd = true -> zmem fd (n_closed n) = false ->
+  exists l1, begin_wait l d c fd = (true, l1) /\ l_sys l1 = t /\ zmem c (l_cotok l1) = true
+             /\ l_ctags l1 = l_ctags l
+             /\ Inv nfd l1 t (snd (nd_step t n (Wait d c fd))).
+Proof.
+  intros nfd l t n d c fd I Hc Hfd Hn Hb Hcl.
+  destruct (bind_wait nfd (n_bind n) c fd (i_ub _ _ _ _ I) (i_inj _ _ _ _ I) (i_rng _ _ _ _ I) Hc Hfd Hb)
+    as [Ub' [J' R']].
+  destruct I as [S Y Ut Ub J R O RR WR T L V].
+  destruct (v_kern _ S) as [tb K].
+  assert (Op : zmem fd (s_open (l_sel l)) = true) by (rewrite (O fd Hfd), Hcl; reflexivity).
+  assert (TOK : forall s', tstep fd c tb (tbl s' 0) -> forall x e, aget x (tbl s' 0) = Some e ->
+            exists c0, aget c0 (aset c fd (n_bind n)) = Some x /\ k_tok e = encode c0).
+  { intros s' TS x e H. destruct (TS x e H) as [Ho|[Ex Et]].
+    - rewrite <- (tbl_one _ tb K) in Ho. destruct (T x e Ho) as [c' [B Tk]]. exists c'. split; [|exact Tk].
+      rewrite aget_aset. destruct (c' =? c) eqn:Ec; [|exact B].
+      apply Z.eqb_eq in Ec; subst c'. f_equal. symmetry. exact (bound_self _ c fd x Hb B).
+    - subst x. exists c. split; [|exact Et]. now rewrite aget_aset, Z.eqb_refl. }
+  assert (LIVE : forall (nr nw : list Z),
+            (forall x, zmem x (n_r n) = true -> zmem x nr = true) ->
+            (forall x, zmem x (n_w n) = true -> zmem x nw = true) ->
+            forall c' f w, aget c' t = Some (f, w) -> f <> VOID ->
+            aget c' (aset c fd (n_bind n)) = Some f /\ zmem c' (zadd c (l_cotok l)) = true
+            /\ zmem f (if w then nw else nr) = true).
+  { intros nr nw Mr Mw c' f w H Hv. destruct (L c' f w H Hv) as [L1 [L2 L3]]. split; [|split].
+    - rewrite aget_aset. destruct (c' =? c) eqn:Ec; [|exact L1]. apply Z.eqb_eq in Ec; subst c'. congruence.
+    - rewrite zmem_zadd, L2. apply orb_true_r.
+    - unfold nreg in L3. destruct w; [now apply Mw|now apply Mr]. }
+  assert (VD : forall c' w, aget c' t = Some (VOID, w) -> aget c' (aset c fd (n_bind n)) = None).
+  { intros c' w H. rewrite aget_aset. destruct (c' =? c) eqn:Ec; [|exact (V c' w H)].
+    apply Z.eqb_eq in Ec; subst c'. congruence. }
+  unfold begin_wait. destruct d.
+  - destruct (add_write_full _ tb fd c S K Op) as [s' [E TS]].
+    destruct (add_write_spec _ tb S K fd c) as [ok [s'' [E2 [Hs' Rc]]]]. rewrite E in E2.
+    inversion E2; subst ok s''. clear E2. destruct Rc as [Ro [Rr [Rw _]]]. rewrite E. cbv beta iota.
+    eexists. split; [reflexivity|]. cbn [l_sys l_cotok l_ctags]. split; [exact Y|]. split; [now rewrite zmem_zadd, Z.eqb_refl|].
+    split; [reflexivity|].
+    cbn [nd_step snd]. constructor; cbn [l_sel l_sys l_cotok n_bind n_r n_w n_closed]; auto.
+    + intros x Hx. rewrite Ro. now apply O.
+    + intros x. rewrite Rr. unfold keepm. apply RR.
+    + intros x. rewrite Rw, zmem_zadd. unfold addm. now rewrite WR.
+    + now apply TOK.
+    + unfold nreg. cbn [n_r n_w]. apply LIVE; auto. intros x Hx. rewrite zmem_zadd, Hx. apply orb_true_r.
+  - destruct (add_read_full _ tb fd c S K Op) as [s' [E TS]].
+    destruct (add_read_spec _ tb S K fd c) as [ok [s'' [E2 [Hs' Rc]]]]. rewrite E in E2.
+    inversion E2; subst ok s''. clear E2. destruct Rc as [Ro [Rr [Rw _]]]. rewrite E. cbv beta iota.
+    eexists. split; [reflexivity|]. cbn [l_sys l_cotok l_ctags]. split; [exact Y|]. split; [now rewrite zmem_zadd, Z.eqb_refl|].
+    split; [reflexivity|].
+    cbn [nd_step snd]. constructor; cbn [l_sel l_sys l_cotok n_bind n_r n_w n_closed]; auto.
+    + intros x Hx. rewrite Ro. now apply O.
+    + intros x. rewrite Rr, zmem_zadd. unfold addm. now rewrite RR.
+    + intros x. rewrite Rw. unfold keepm. apply WR.
+    + now apply TOK.
+    + unfold nreg. cbn [n_r n_w]. apply LIVE; auto. intros x Hx. rewrite zmem_zadd, Hx. apply orb_true_r.
+Qed.
+
+Definition step_ok (nfd : Z) (l : loop) (t : list (Z * want)) (n : nd) (o : op) : Prop :=
   fst (ok_step t o (snd (step l o))) = true
   /\ snd (ok_step t o (snd (step l o))) = spec_step t o
-  /\ Inv nfd (fst (step l o)) (spec_step t o) (snd (pair_step b o)).
+  /\ Inv nfd (fst (step l o)) (spec_step t o) (snd (nd_step t n o))
+  /\ l_ctags (fst (step l o)) = l_ctags l.
+
+Lemma wf_wait_bits : forall nfd (t : list (Z * want)) c fd,
+  in_u64 c && (1 <=? fd) && (fd <? nfd) && match aget c t with None => true | Some _ => false end = true ->
+  in_u64 c = true /\ 0 <= fd < nfd /\ aget c t = None.
 Proof.
-  intros nfd l t b o I Hwf Hp. destruct o as [c fd|c fd|fd|fd]; cbn [wf_op pair_step fst snd spec_step] in *.
-  - (* Wait *)
-    apply andb_true_iff in Hwf as [Hwf Hn]. apply andb_true_iff in Hwf as [Hwf H3].
-    apply andb_true_iff in Hwf as [Hc H2].
-    assert (Hfd : 0 <= fd < nfd) by lia.
-    destruct (aget c t) eqn:Gt; [discriminate|].
-    destruct (bind_wait nfd l t b c fd I Hc Hfd Hp) as [Ub' [J' R']].
-    destruct I as [S Y Ub Ut J L V R].
-    destruct (add_read_ok nfd (l_sel l) b c fd S Hfd Hp) as [s' [E [S' G']]].
-    cbn [step]. rewrite Y, Gt. unfold begin_wait. rewrite E. cbn [fst snd ok_step].
-    split; [reflexivity|]. split; [reflexivity|].
-    constructor; cbn [l_sel l_sys l_cotok]; auto.
-    + now rewrite Y.
-    + now apply ukeys_aset.
-    + intros c' f H Hv. rewrite aget_aset in H. rewrite aget_aset, zmem_zadd.
-      destruct (c' =? c) eqn:Ec.
-      * inversion H; subst f. split; reflexivity.
-      * destruct (L c' f H Hv) as [L1 L2]. split; [exact L1|]. rewrite L2. apply orb_true_r.
-    + intros c' H. rewrite aget_aset in H. rewrite aget_aset. destruct (c' =? c) eqn:Ec.
-      * inversion H. unfold VOID in *. lia.
-      * exact (V c' H).
-  - (* WaitT *)
-    apply andb_true_iff in Hwf as [Hwf Hn]. apply andb_true_iff in Hwf as [Hwf H3].
-    apply andb_true_iff in Hwf as [Hc H2].
-    assert (Hfd : 0 <= fd < nfd) by lia.
-    destruct (aget c t) eqn:Gt; [discriminate|].
-    destruct (bind_wait nfd l t b c fd I Hc Hfd Hp) as [Ub' [J' R']].
-    destruct I as [S Y Ub Ut J L V R].
-    destruct (add_read_ok nfd (l_sel l) b c fd S Hfd Hp) as [s' [E [S' G']]].
-    cbn [step]. rewrite Y, Gt. unfold begin_wait. rewrite E. cbn [fst snd ok_step].
-    split; [reflexivity|]. split; [reflexivity|].
-    constructor; cbn [l_sel l_sys l_cotok]; auto.
-    + intros c' f H Hv. rewrite aget_aset, zmem_zadd.
-      destruct (c' =? c) eqn:Ec.
-      * apply Z.eqb_eq in Ec; subst c'. congruence.
-      * destruct (L c' f H Hv) as [L1 L2]. split; [exact L1|]. rewrite L2. apply orb_true_r.
-    + intros c' H. rewrite aget_aset. destruct (c' =? c) eqn:Ec.
-      * apply Z.eqb_eq in Ec; subst c'. congruence.
-      * exact (V c' H).
-  - (* Ready *)
-    assert (Hfd : 0 <= fd < nfd) by lia. clear Hwf Hp.
-    destruct I as [S Y Ub Ut J L V R].
-    assert (Hnv : fd <> VOID) by (unfold VOID; lia).
-    cbn [step]. destruct (aget fd (tbl (l_sel l) 0)) as [e|] eqn:G.
-    + destruct (so_bwd _ _ _ S fd e G) as [c Hc].
-      pose proof (so_fwd _ _ _ S c fd Hc) as G2. rewrite G in G2. inversion G2; subst e. clear G2.
-      cbn [k_r k_w k_tok ent]. destruct (R c fd Hc) as [Rc _].
-      rewrite (roundtrip c Rc). rewrite Y.
-      assert (Huniq : forall c', aget c' t = Some fd -> c' = c).
-      { intros c' H. destruct (L c' fd H Hnv) as [L1 _]. exact (J c' c fd L1 Hc). }
-      destruct (aget c t) as [f|] eqn:Gc.
-      * (* c is suspended *)
-        assert (f = fd).
-        { destruct (Z.eq_dec f VOID) as [Ev|Ev].
-          - subst f. rewrite (V c Gc) in Hc. discriminate.
-          - destruct (L c f Gc Ev) as [L1 _]. congruence. }
-        subst f. destruct (L c fd Gc Hnv) as [_ Lc]. rewrite Lc.
-        cbn [fst snd ok_step]. rewrite (waiters_one fd t c Ut Gc Huniq).
-        split; [apply same_set_refl1|]. split; [reflexivity|]. cbn [fold_left].
-        constructor; cbn [l_sel l_sys l_cotok]; auto.
-        -- now apply deliver_ok.
-        -- now apply ukeys_arem.
-        -- intros c' f H Hv. rewrite aget_arem in H. rewrite zmem_zrem.
-           destruct (c' =? c) eqn:Ec; [discriminate|]. destruct (L c' f H Hv) as [L1 L2].
-           split; [exact L1|]. now rewrite L2.
-        -- intros c' H. rewrite aget_arem in H. destruct (c' =? c); [discriminate|]. exact (V c' H).
-      * (* nobody waits on fd *)
-        assert (Hw : waiters_on fd t = []).
-        { apply (waiters_none fd t Ut). intros c' H. rewrite (Huniq c' H) in H. congruence. }
-        assert (Hwk : (if zmem c (l_cotok l) then match @None Z with Some _ => [c] | None => [] end else []) = []).
-        { destruct (zmem c (l_cotok l)); reflexivity. }
-        cbn [fst snd ok_step]. rewrite Hw, Hwk. cbn [fold_left].
-        split; [reflexivity|]. split; [reflexivity|].
-        constructor; cbn [l_sel l_sys l_cotok]; auto.
-        -- now apply deliver_ok.
-        -- destruct (zmem c (l_cotok l)); [|reflexivity]. now apply arem_none.
-        -- intros c' f H Hv. rewrite zmem_zrem. destruct (L c' f H Hv) as [L1 L2].
-           split; [exact L1|]. rewrite L2. destruct (c' =? c) eqn:Ec; [|reflexivity].
-           apply Z.eqb_eq in Ec; subst c'. congruence.
-    + cbn [fst snd ok_step].
-      assert (Hw : waiters_on fd t = []).
-      { apply (waiters_none fd t Ut). intros c' H. destruct (L c' fd H Hnv) as [L1 _].
-        rewrite (so_fwd _ _ _ S c' fd L1) in G. discriminate. }
-      rewrite Hw. cbn [fold_left]. split; [reflexivity|]. split; [reflexivity|].
-      constructor; auto.
-  - (* Del *)
-    assert (Hfd : 0 <= fd < nfd) by lia. clear Hwf Hp.
-    destruct I as [S Y Ub Ut J L V R].
-    assert (Hnv : fd <> VOID) by (unfold VOID; lia).
-    destruct (del_ok nfd (l_sel l) b fd S Ub Hfd) as [s' [E S']].
-    cbn [step]. rewrite E. cbn [fst snd ok_step]. split; [reflexivity|]. split; [reflexivity|].
-    constructor; cbn [l_sel l_sys l_cotok]; auto.
-    + now rewrite Y.
-    + now apply ukeys_filter.
-    + now apply ukeys_void_fd.
-    + intros c1 c2 f H1 H2. rewrite (aget_filter_snd b fd c1 Ub) in H1. rewrite (aget_filter_snd b fd c2 Ub) in H2.
-      destruct (aget c1 b) as [f1|] eqn:G1; [|discriminate]. destruct (aget c2 b) as [f2|] eqn:G2; [|discriminate].
-      destruct (f1 =? fd); [discriminate|]. destruct (f2 =? fd); [discriminate|].
-      inversion H1; inversion H2; subst. exact (J c1 c2 f G1 G2).
-    + intros c f H Hv. rewrite aget_void_fd in H. destruct (aget c t) as [f0|] eqn:G0; [|discriminate].
-      destruct (f0 =? fd) eqn:E0; inversion H; subst f; [congruence|].
-      destruct (L c f0 G0 Hv) as [L1 L2]. split; [|exact L2].
-      rewrite (aget_filter_snd b fd _ Ub), L1, E0. reflexivity.
-    + intros c H. rewrite aget_void_fd in H. destruct (aget c t) as [f0|] eqn:G0; [|discriminate].
-      rewrite (aget_filter_snd b fd _ Ub).
-      destruct (f0 =? fd) eqn:E0.
-      * apply Z.eqb_eq in E0; subst f0. destruct (L c fd G0 Hnv) as [L1 _]. rewrite L1, Z.eqb_refl. reflexivity.
-      * inversion H; subst f0. now rewrite (V c G0).
-    + intros c f H. rewrite (aget_filter_snd b fd _ Ub) in H.
-      destruct (aget c b) as [f1|] eqn:G1; [|discriminate]. destruct (f1 =? fd); [discriminate|].
-      inversion H; subst. exact (R c f G1).
+  intros nfd t c fd H. apply andb_true_iff in H as [H Hn]. apply andb_true_iff in H as [H H3].
+  apply andb_true_iff in H as [Hc H2]. destruct (aget c t); [discriminate|]. repeat split; auto; lia.
 Qed.
 
-Lemma run_inv : forall nfd ops l t b,
-  Inv nfd l t b -> wf_from nfd t ops = true -> paired_from b ops = true ->
-  ok_from t ops (fst (run_from l ops)) = true.
+Lemma step_wait : forall nfd l t n d c fd,
+  Inv nfd l t n -> wf_op nfd t (Wait d c fd) = true -> fst (nd_step t n (Wait d c fd)) = true ->
+  step_ok nfd l t n (Wait d c fd).
 Proof.
-  intros nfd ops. induction ops as [|o ops IH]; intros l t b I Hwf Hp; [reflexivity|].
+  intros nfd l t n d c fd I Hwf Hp. cbn [wf_op] in Hwf. destruct (wf_wait_bits nfd t c fd Hwf) as [Hc [Hfd Hn]].
+  cbn [nd_step fst] in Hp. apply andb_true_iff in Hp as [Hb Hcl]. apply negb_true_iff in Hcl.
+  destruct (begin_wait_inv nfd l t n d c fd I Hc Hfd Hn Hb Hcl) as [l1 [E [Y1 [C1 [G1 I1]]]]].
+  unfold step_ok. cbn [step]. rewrite (i_sys _ _ _ _ I), Hn, E. cbn [fst snd ok_step spec_step].
+  split; [reflexivity|]. split; [reflexivity|]. split; [|exact G1].
+  destruct I1 as [S Y Ut Ub J R O RR WR T L V].
+  constructor; cbn [with_sys l_sel l_sys l_cotok]; auto.
+  - now rewrite Y1.
+  - now apply ukeys_aset.
+  - intros c' f w H Hv. rewrite aget_aset in H. destruct (c' =? c) eqn:Ec; [|exact (L c' f w H Hv)].
+    apply Z.eqb_eq in Ec; subst c'. inversion H; subst f w. split; [|split].
+    + cbn [nd_step snd n_bind]. now rewrite aget_aset, Z.eqb_refl.
+    + exact C1.
+    + unfold nreg. cbn [nd_step snd n_r n_w]. destruct d; now rewrite zmem_zadd, Z.eqb_refl.
+  - intros c' w H. rewrite aget_aset in H. destruct (c' =? c) eqn:Ec; [|exact (V c' w H)].
+    inversion H. unfold VOID in *. lia.
+Qed.
+
+Lemma step_waitt : forall nfd l t n d c fd,
+  Inv nfd l t n -> wf_op nfd t (WaitT d c fd) = true -> fst (nd_step t n (WaitT d c fd)) = true ->
+  step_ok nfd l t n (WaitT d c fd).
+Proof.
+  intros nfd l t n d c fd I Hwf Hp. cbn [wf_op] in Hwf. destruct (wf_wait_bits nfd t c fd Hwf) as [Hc [Hfd Hn]].
+  cbn [nd_step fst] in Hp. apply andb_true_iff in Hp as [Hb Hcl]. apply negb_true_iff in Hcl.
+  destruct (begin_wait_inv nfd l t n d c fd I Hc Hfd Hn Hb Hcl) as [l1 [E [Y1 [C1 [G1 I1]]]]].
+  unfold step_ok. cbn [step]. rewrite (i_sys _ _ _ _ I), Hn, E. cbn [fst snd ok_step spec_step].
+  split; [reflexivity|]. split; [reflexivity|]. split; [exact I1|exact G1].
+Qed.
+
+Lemma step_ready : forall nfd l t n d fd,
+  Inv nfd l t n -> 0 <= fd < nfd -> waiters_on fd (negb d) t = [] -> step_ok nfd l t n (Ready d fd).
+Proof.
+  intros nfd l t n d fd I Hfd Hp. pose proof I as I0. destruct I as [S Y Ut Ub J R O RR WR T L V].
+  assert (Hnv : fd <> VOID) by (unfold VOID; lia).
+  assert (REG : forall c', aget c' t = Some (fd, d) ->
+            exists e, aget fd (tbl (l_sel l) 0) = Some e /\ (if d then k_w e else k_r e) = true).
+  { intros c' H. destruct (L c' fd d H Hnv) as [_ [_ L3]]. pose proof (v_coh _ S fd) as [C1 C2].
+    unfold kr, kw in C1, C2. unfold nreg in L3. destruct d.
+    - rewrite <- WR in L3. rewrite L3 in C2. destruct (aget fd (tbl (l_sel l) 0)) as [e|]; [|discriminate].
+      exists e. now split.
+    - rewrite <- RR in L3. rewrite L3 in C1. destruct (aget fd (tbl (l_sel l) 0)) as [e|]; [|discriminate].
+      exists e. now split. }
+  unfold step_ok. cbn [step nd_step snd]. destruct (aget fd (tbl (l_sel l) 0)) as [e|] eqn:G.
+  2: { cbn [fst snd ok_step spec_step].
+       assert (Hw : waiters_on fd d t = []).
+       { apply waiters_none; [exact Ut|]. intros c' H. destruct (REG c' H) as [e [G2 _]]. discriminate. }
+       rewrite Hw. cbn [is_nil fold_left]. split; [reflexivity|]. split; [reflexivity|]. split; [exact I0|reflexivity]. }
+  destruct (if d then k_w e else k_r e) eqn:F.
+  2: { cbn [fst snd ok_step spec_step].
+       assert (Hw : waiters_on fd d t = []).
+       { apply waiters_none; [exact Ut|]. intros c' H. destruct (REG c' H) as [e' [G2 F2]].
+         inversion G2; subst e'. congruence. }
+       rewrite Hw. cbn [is_nil fold_left]. split; [reflexivity|]. split; [reflexivity|]. split; [exact I0|reflexivity]. }
+  destruct (T fd e G) as [c [B Tk]]. rewrite Tk. destruct (R c fd B) as [Rc _]. rewrite (roundtrip c Rc). rewrite Y.
+  assert (Huniq : forall c' w, aget c' t = Some (fd, w) -> c' = c).
+  { intros c' w H. destruct (L c' fd w H Hnv) as [L1 _]. exact (J c' c fd L1 B). }
+  destruct (deliver_proj (l_sel l) c (negb d) d) as [P1 [P2 [P3 P4]]].
+  assert (TB : tbl (deliver (l_sel l) c (negb d) d) 0 = tbl (l_sel l) 0) by (unfold tbl; now rewrite P2).
+  destruct (aget c t) as [[f w]|] eqn:Gc.
+  - assert (f = fd).
+    { destruct (Z.eq_dec f VOID) as [Ev|Ev].
+      - subst f. rewrite (V c w Gc) in B. discriminate.
+      - destruct (L c f w Gc Ev) as [L1 _]. congruence. }
+    subst f.
+    assert (w = d).
+    { destruct (Bool.bool_dec w d) as [|Ne]; [assumption|]. exfalso.
+      assert (w = negb d) by (destruct w, d; try reflexivity; exfalso; apply Ne; reflexivity). subst w.
+      pose proof (waiters_in fd (negb d) t c Gc) as X. rewrite Hp in X. destruct X. }
+    subst w. destruct (L c fd d Gc Hnv) as [_ [Lc _]]. rewrite Lc.
+    cbn [fst snd ok_step spec_step].
+    rewrite (waiters_one fd d t c Ut Gc (fun c' H => Huniq c' d H)).
+    split; [apply same_set_refl1|]. split; [reflexivity|]. cbn [fold_left].
+    split; [|cbn [l_ctags]; now rewrite same_set_refl1].
+    constructor; cbn [l_sel l_sys l_cotok]; auto.
+    + now apply sinv_deliver.
+    + now apply ukeys_arem.
+    + intros x Hx. rewrite P1. now apply O.
+    + intros x. rewrite P3. apply RR.
+    + intros x. rewrite P4. apply WR.
+    + intros x e0. rewrite TB. apply T.
+    + intros c' f w H Hv. rewrite aget_arem in H. destruct (c' =? c) eqn:Ec; [discriminate|].
+      destruct (L c' f w H Hv) as [L1 [L2 L3]]. split; [exact L1|]. split; [|exact L3].
+      rewrite zmem_zrem, Ec. exact L2.
+    + intros c' w H. rewrite aget_arem in H. destruct (c' =? c); [discriminate|]. exact (V c' w H).
+  - assert (Hw : waiters_on fd d t = []).
+    { apply waiters_none; [exact Ut|]. intros c' H. pose proof (Huniq c' d H) as X. subst c'. pose proof (eq_trans (eq_sym Gc) H) as X2. discriminate X2. }
+    assert (Hwk : (if zmem c (l_cotok l) then match @None want with Some _ => [c] | None => [] end else []) = []).
+    { destruct (zmem c (l_cotok l)); reflexivity. }
+    cbn [fst snd ok_step spec_step]. rewrite Hw, Hwk. cbn [fold_left].
+    split; [reflexivity|]. split; [reflexivity|].
+    split; [|reflexivity].
+    constructor; cbn [l_sel l_sys l_cotok]; auto.
+    + now apply sinv_deliver.
+    + destruct (zmem c (l_cotok l)); [|reflexivity]. now apply arem_none.
+    + intros x Hx. rewrite P1. now apply O.
+    + intros x. rewrite P3. apply RR.
+    + intros x. rewrite P4. apply WR.
+    + intros x e0. rewrite TB. apply T.
+    + intros c' f w H Hv. destruct (L c' f w H Hv) as [L1 [L2 L3]]. split; [exact L1|]. split; [|exact L3].
+      rewrite zmem_zrem, L2. destruct (c' =? c) eqn:Ec; [|reflexivity].
+      apply Z.eqb_eq in Ec; subst c'. congruence.
+Qed.
+
+Lemma tle_trans : forall a b c, tle a b -> tle b c -> tle a c.
+Proof. intros a b c H1 H2 x e H. apply H1. now apply H2. Qed.
+
+(** a deletion that removes the whole registration of [fd]: [Del], [Close], [DelDir] of the only
+    registered direction *)
+Lemma forget_inv : forall nfd l t n fd s' t' closed' (kill : Z -> bool -> bool),
+  Inv nfd l t n -> 0 <= fd < nfd ->
+  sinv s' ->
+  (forall x, 0 <= x < nfd -> zmem x (s_open s') = negb (zmem x closed')) ->
+  (forall x, zmem x (s_rrec s') = negb (x =? fd) && zmem x (s_rrec (l_sel l))) ->
+  (forall x, zmem x (s_wrec s') = negb (x =? fd) && zmem x (s_wrec (l_sel l))) ->
+  tle (tbl (l_sel l) 0) (tbl s' 0) ->
+  ukeys t' ->
+  (forall c, aget c t' =
+             match aget c t with Some (f, w) => Some (if kill f w then VOID else f, w) | None => None end) ->
+  (forall f w, kill f w = true -> f = fd) ->
+  (forall w, kill fd w = false -> zmem fd (nreg n w) = false) ->
+  Inv nfd (with_sys (with_sel l s') t') t' (nd_forget n fd closed').
+Proof.
+  intros nfd l t n fd s' t' closed' kill I Hfd S' O' RR' WR' TL Ut' AG K1 K2.
+  destruct I as [S Y Ut Ub J R O RR WR T L V].
+  assert (Hnv : fd <> VOID) by (unfold VOID; lia).
+  assert (NR : forall w x, zmem x (nreg (nd_forget n fd closed') w) = negb (x =? fd) && zmem x (nreg n w)).
+  { intros w x. unfold nreg, nd_forget. cbn [n_r n_w]. destruct w; apply zmem_zrem. }
+  constructor; cbn [with_sys with_sel l_sel l_sys l_cotok nd_forget n_bind n_r n_w n_closed]; auto.
+  - now apply ukeys_filter.
+  - intros c1 c2 f H1 H2. rewrite (aget_unbind _ fd c1 Ub) in H1. rewrite (aget_unbind _ fd c2 Ub) in H2.
+    destruct (aget c1 (n_bind n)) as [f1|] eqn:G1; [|discriminate].
+    destruct (aget c2 (n_bind n)) as [f2|] eqn:G2; [|discriminate].
+    destruct (f1 =? fd); [discriminate|]. destruct (f2 =? fd); [discriminate|].
+    inversion H1; inversion H2; subst. exact (J c1 c2 f G1 G2).
+  - intros c f H. rewrite (aget_unbind _ fd c Ub) in H.
+    destruct (aget c (n_bind n)) as [f1|] eqn:G1; [|discriminate]. destruct (f1 =? fd); [discriminate|].
+    inversion H; subst. exact (R c f G1).
+  - intros x. rewrite RR', zmem_zrem, RR. reflexivity.
+  - intros x. rewrite WR', zmem_zrem, WR. reflexivity.
+  - intros x e H.
+    assert (Hx : (x =? fd) = false).
+    { destruct (x =? fd) eqn:E; [|reflexivity]. apply Z.eqb_eq in E; subst x. exfalso.
+      assert (N : aget fd (tbl s' 0) = None).
+      { apply (absent_iff s' fd S'). rewrite RR', WR', Z.eqb_refl. split; reflexivity. }
+      rewrite N in H. discriminate. }
+    destruct (T x e (TL x e H)) as [c [B Tk]]. exists c. split; [|exact Tk].
+    rewrite (aget_unbind _ fd c Ub), B, Hx. reflexivity.
+  - intros c f' w H Hv. rewrite AG in H. destruct (aget c t) as [[f w0]|] eqn:G; [|discriminate].
+    inversion H; subst w0. clear H. destruct (kill f w) eqn:Ek; [congruence|]. subst f'.
+    destruct (L c f w G Hv) as [L1 [L2 L3]].
+    assert (Hf : (f =? fd) = false).
+    { destruct (f =? fd) eqn:E; [|reflexivity]. apply Z.eqb_eq in E; subst f.
+      rewrite (K2 w Ek) in L3. discriminate. }
+    split; [|split].
+    + rewrite (aget_unbind _ fd c Ub), L1, Hf. reflexivity.
+    + exact L2.
+    + rewrite NR, Hf, L3. reflexivity.
+  - intros c w H. rewrite AG in H. destruct (aget c t) as [[f w0]|] eqn:G; [|discriminate].
+    inversion H; subst w0. rewrite (aget_unbind _ fd c Ub). destruct (kill f w) eqn:Ek.
+    + pose proof (K1 f w Ek). subst f. destruct (L c fd w G Hnv) as [L1 _]. rewrite L1, Z.eqb_refl. reflexivity.
+    + match goal with X : _ = VOID |- _ => rewrite X in G end. now rewrite (V c w G).
+Qed.
+
+Lemma remm_eq : forall fd x b, remm fd x b = negb (x =? fd) && b.
+Proof. reflexivity. Qed.
+
+Lemma step_del : forall nfd l t n fd, Inv nfd l t n -> 0 <= fd < nfd -> step_ok nfd l t n (Del fd).
+Proof.
+  intros nfd l t n fd I Hfd. pose proof I as I0. destruct I as [S Y Ut Ub J R O RR WR T L V].
+  destruct (v_kern _ S) as [tb K].
+  destruct (el_del_event_spec _ tb fd S K) as [s' [E [S' [Ro [Rr [Rw _]]]]]].
+  unfold step_ok. cbn [step nd_step snd]. rewrite E. cbn [fst snd ok_step spec_step].
+  split; [reflexivity|]. split; [reflexivity|]. split; [|reflexivity]. rewrite Y.
+  apply (forget_inv nfd l t n fd s' (void_fd fd t) (n_closed n) (fun f _ => f =? fd) I0 Hfd S'); auto.
+  - intros x Hx. rewrite Ro. now apply O.
+  - rewrite (tbl_one _ tb K). exact (el_del_event_tbl _ tb fd s' S K E).
+  - now apply ukeys_void_fd.
+  - intros c. apply aget_void_fd.
+  - intros f w H. now apply Z.eqb_eq.
+  - intros w H. cbv beta in H. rewrite Z.eqb_refl in H. discriminate.
+Qed.
+
+Lemma step_close : forall nfd l t n fd, Inv nfd l t n -> 0 <= fd < nfd -> step_ok nfd l t n (Close fd).
+Proof.
+  intros nfd l t n fd I Hfd. pose proof I as I0. destruct I as [S Y Ut Ub J R O RR WR T L V].
+  destruct (v_kern _ S) as [tb K].
+  destruct (el_del_event_spec _ tb fd S K) as [s1 [E [S1 [Ro [Rr [Rw _]]]]]].
+  assert (N1 : zmem fd (s_rrec s1) = false) by (rewrite Rr, remm_eq, Z.eqb_refl; reflexivity).
+  assert (N2 : zmem fd (s_wrec s1) = false) by (rewrite Rw, remm_eq, Z.eqb_refl; reflexivity).
+  unfold step_ok. cbn [step nd_step snd]. rewrite E. cbn [fst snd ok_step spec_step].
+  split; [reflexivity|]. split; [reflexivity|]. split; [|reflexivity]. rewrite Y.
+  destruct (v_kern _ S1) as [tb1 K1].
+  apply (forget_inv nfd l t n fd (os_close s1 fd) (void_fd fd t) (zadd fd (n_closed n)) (fun f _ => f =? fd)
+           I0 Hfd (sinv_os_close s1 fd S1 N1 N2)); auto.
+  - intros x Hx. cbn [os_close s_open with_open]. rewrite zmem_zrem, zmem_zadd, Ro, (O x Hx).
+    destruct (x =? fd); reflexivity.
+  - apply (tle_trans _ (tbl s1 0)).
+    + rewrite (tbl_one _ tb K). exact (el_del_event_tbl _ tb fd s1 S K E).
+    + unfold tbl, os_close. cbn [s_kern with_open]. rewrite K1. cbn [map nth]. apply tle_arem.
+  - now apply ukeys_void_fd.
+  - intros c. apply aget_void_fd.
+  - intros f w H. now apply Z.eqb_eq.
+  - intros w H. cbv beta in H. rewrite Z.eqb_refl in H. discriminate.
+Qed.
+
+Lemma step_deldir : forall nfd l t n d fd,
+  Inv nfd l t n -> 0 <= fd < nfd -> zmem fd (nreg n (negb d)) = false -> step_ok nfd l t n (DelDir d fd).
+Proof.
+  intros nfd l t n d fd I Hfd Hp. pose proof I as I0. destruct I as [S Y Ut Ub J R O RR WR T L V].
+  destruct (v_kern _ S) as [tb K].
+  assert (KILL : forall w, (fd =? fd) && Bool.eqb w d = false -> zmem fd (nreg n w) = false).
+  { intros w H. rewrite Z.eqb_refl in H. cbn [andb] in H.
+    assert (w = negb d) by (destruct w, d; try reflexivity; discriminate). now subst w. }
+  unfold step_ok. cbn [step nd_step snd]. destruct d; cbn [negb nreg] in Hp.
+  - rewrite <- RR in Hp.
+    destruct (el_del_write_spec _ tb fd S K) as [s' [E [S' [Ro [Rr [Rw _]]]]]].
+    rewrite E. cbn [fst snd ok_step spec_step]. split; [reflexivity|]. split; [reflexivity|]. split; [|reflexivity]. rewrite Y.
+    apply (forget_inv nfd l t n fd s' (void_dir fd true t) (n_closed n) (fun f w => (f =? fd) && Bool.eqb w true)
+             I0 Hfd S'); auto.
+    + intros x Hx. rewrite Ro. now apply O.
+    + intros x. rewrite Rr. unfold keepm. destruct (x =? fd) eqn:Ex; [|reflexivity].
+      apply Z.eqb_eq in Ex; subst x. now rewrite Hp.
+    + rewrite (tbl_one _ tb K). exact (el_del_write_tbl _ tb fd s' S K Hp E).
+    + now apply ukeys_void_dir.
+    + intros c. apply aget_void_dir.
+    + intros f w H. apply andb_true_iff in H as [H _]. now apply Z.eqb_eq.
+  - rewrite <- WR in Hp.
+    destruct (el_del_read_spec _ tb fd S K) as [s' [E [S' [Ro [Rr [Rw _]]]]]].
+    rewrite E. cbn [fst snd ok_step spec_step]. split; [reflexivity|]. split; [reflexivity|]. split; [|reflexivity]. rewrite Y.
+    apply (forget_inv nfd l t n fd s' (void_dir fd false t) (n_closed n) (fun f w => (f =? fd) && Bool.eqb w false)
+             I0 Hfd S'); auto.
+    + intros x Hx. rewrite Ro. now apply O.
+    + intros x. rewrite Rw. unfold keepm. destruct (x =? fd) eqn:Ex; [|reflexivity].
+      apply Z.eqb_eq in Ex; subst x. now rewrite Hp.
+    + rewrite (tbl_one _ tb K). exact (el_del_read_tbl _ tb fd s' S K Hp E).
+    + now apply ukeys_void_dir.
+    + intros c. apply aget_void_dir.
+    + intros f w H. apply andb_true_iff in H as [H _]. now apply Z.eqb_eq.
+Qed.
+
+Lemma step_reopen : forall nfd l t n fd, Inv nfd l t n -> step_ok nfd l t n (Reopen fd).
+Proof.
+  intros nfd l t n fd I. destruct I as [S Y Ut Ub J R O RR WR T L V].
+  unfold step_ok. cbn [step nd_step fst snd ok_step spec_step].
+  split; [reflexivity|]. split; [reflexivity|]. split; [|reflexivity].
+  constructor; cbn [with_sel l_sel l_sys l_cotok n_bind n_r n_w n_closed]; auto.
+  - now apply sinv_os_open.
+  - intros x Hx. cbn [os_open s_open with_open]. rewrite zmem_zadd, zmem_zrem, (O x Hx).
+    destruct (x =? fd); reflexivity.
+Qed.
+
+Lemma step_inv : forall nfd l t n o,
+  Inv nfd l t n -> wf_op nfd t o = true -> fst (nd_step t n o) = true -> step_ok nfd l t n o.
+Proof.
+  intros nfd l t n o I Hwf Hp. destruct o as [d c fd|d c fd|d fd|fd|d fd|fd|fd].
+  - now apply step_wait.
+  - now apply step_waitt.
+  - cbn [wf_op] in Hwf. cbn [nd_step fst] in Hp. apply step_ready; [exact I|lia|].
+    destruct (waiters_on fd (negb d) t); [reflexivity|discriminate].
+  - cbn [wf_op] in Hwf. apply step_del; [exact I|lia].
+  - cbn [wf_op] in Hwf. cbn [nd_step fst] in Hp. apply negb_true_iff in Hp.
+    apply step_deldir; [exact I|lia|]. unfold nreg. now destruct d.
+  - cbn [wf_op] in Hwf. apply step_close; [exact I|lia].
+  - now apply step_reopen.
+Qed.
+
+Lemma run_inv : forall nfd ops l t n,
+  Inv nfd l t n -> wf_from nfd t ops = true -> nd_from t n ops = true ->
+  ok_from t ops (fst (run_from l ops)) = true /\ l_ctags (snd (run_from l ops)) = l_ctags l.
+Proof.
+  intros nfd ops. induction ops as [|o ops IH]; intros l t n I Hwf Hp; [split; reflexivity|].
   cbn [wf_from] in Hwf. apply andb_true_iff in Hwf as [Hw1 Hw2].
-  cbn [paired_from] in Hp. destruct (pair_step b o) as [pk b1] eqn:Ep.
+  cbn [nd_from] in Hp. destruct (nd_step t n o) as [pk n1] eqn:Ep.
   apply andb_true_iff in Hp as [Hp1 Hp2].
-  assert (Hp1' : fst (pair_step b o) = true) by now rewrite Ep.
-  destruct (step_inv nfd l t b o I Hw1 Hp1') as [A [B C]].
+  assert (Hp1' : fst (nd_step t n o) = true) by now rewrite Ep.
+  destruct (step_inv nfd l t n o I Hw1 Hp1') as [A [B [C D]]].
   cbn [run_from]. destruct (step l o) as [l1 r] eqn:Es. cbn [fst snd] in *.
-  destruct (run_from l1 ops) as [rs lf] eqn:Er. cbn [fst ok_from].
+  destruct (run_from l1 ops) as [rs lf] eqn:Er. cbn [fst snd ok_from].
   destruct (ok_step t o r) as [k t1] eqn:Eo. cbn [fst snd] in *. subst k t1. cbn [andb].
   rewrite Ep in C. cbn [snd] in C.
-  specialize (IH l1 (spec_step t o) b1 C Hw2 Hp2). now rewrite Er in IH.
+  specialize (IH l1 (spec_step t o) n1 C Hw2 Hp2). rewrite Er in IH. cbn [fst snd] in IH.
+  destruct IH as [IH1 IH2]. split; [exact IH1|]. now rewrite IH2.
 Qed.
 
-Lemma inv_init : forall nfd, 0 <= nfd -> Inv nfd (loop_init nfd) [] [].
+Lemma inv_init : forall nfd, 0 <= nfd -> Inv nfd (loop_init nfd) [] nd_init.
 Proof.
-  intros nfd Hn. constructor; cbn [loop_init l_sel l_sys l_cotok]; try (intros; discriminate); try apply ukeys_nil; auto.
-  constructor; cbn [sel_init s_kern s_wrec s_open s_rrec repeat]; try (intros; discriminate); auto.
-  - now exists [].
-  - intros fd Hfd.
-    assert (G : forall n k, (Z.to_nat fd < k + n)%nat -> (k <= Z.to_nat fd)%nat ->
-              zmem fd (map Z.of_nat (seq k n)) = true).
-    { intros n. induction n as [|n IHn]; intros k H1 H2; [lia|].
-      cbn [seq map zmem]. destruct (fd =? Z.of_nat k) eqn:E; [reflexivity|]. cbn [orb].
-      apply IHn; lia. }
-    apply G; lia.
+  intros nfd Hn. constructor; cbn [loop_init l_sel l_sys l_cotok nd_init n_bind n_r n_w n_closed];
+    try (intros; discriminate); try apply ukeys_nil; auto.
+  - exact (proj1 (yinv_init nfd)).
+  - intros fd Hfd. cbn [sel_init s_open zmem negb]. exact (zmem_fds nfd fd Hfd).
 Qed.
 
 Lemma holds_outside : forall nfd ops,
-  wf_C20 nfd ops = true -> paired ops = true -> ok_C20 ops (run_C20 nfd ops) = true.
+  wf_C20 nfd ops = true -> no_defect ops = true -> ok_C20 ops (run_C20 nfd ops) = true.
 Proof.
   intros nfd ops Hwf Hp. unfold wf_C20 in Hwf. apply andb_true_iff in Hwf as [Hn Hwf].
-  unfold ok_C20, run_C20. apply (run_inv nfd ops (loop_init nfd) [] []); auto.
+  unfold ok_C20, run_C20. apply (run_inv nfd ops (loop_init nfd) [] nd_init); auto.
   apply inv_init. lia.
 Qed.
 
-(** the oracle's readiness clause in words *)
+(** the ghost tags of the two findings are raised on no history inside the premises *)
+Lemma no_tag_outside : forall nfd ops,
+  wf_C20 nfd ops = true -> no_defect ops = true -> fst (tags_C20 nfd ops) = [].
+Proof.
+  intros nfd ops Hwf Hp. unfold wf_C20 in Hwf. apply andb_true_iff in Hwf as [Hn Hwf].
+  unfold tags_C20. cbn [fst].
+  assert (I : Inv nfd (loop_init nfd) [] nd_init) by (apply inv_init; lia).
+  destruct (run_inv nfd ops (loop_init nfd) [] nd_init I Hwf Hp) as [_ T]. exact T.
+Qed.
+
+(** * The oracle's readiness clause in words *)
 Lemma same_set_spec : forall a b, same_set a b = true -> forall x, In x a <-> In x b.
 Proof.
   assert (M : forall x l, zmem x l = true <-> In x l).
@@ -439,37 +691,174 @@ Proof.
   split; [apply (S a b H1)|apply (S b a H2)].
 Qed.
 
-Lemma ready_clause : forall t fd tok hit woken t',
-  ok_step t (Ready fd) (OEvent tok hit woken) = (true, t') ->
-  forall c, In c woken <-> In c (waiters_on fd t).
+Lemma ready_clause : forall t d fd tok hit woken t',
+  ok_step t (Ready d fd) (OEvent tok hit woken) = (true, t') ->
+  forall c, In c woken <-> In c (waiters_on fd d t).
 Proof.
-  intros t fd tok hit woken t' H c. cbn [ok_step] in H. inversion H as [[H1 H2]].
+  intros t d fd tok hit woken t' H c. cbn [ok_step] in H. inversion H as [[H1 H2]].
   symmetry. now apply same_set_spec.
 Qed.
 
-Lemma ready_clause_noevent : forall t fd t',
-  ok_step t (Ready fd) ONoEvent = (true, t') -> waiters_on fd t = [].
+Lemma ready_clause_noevent : forall t d fd t',
+  ok_step t (Ready d fd) ONoEvent = (true, t') -> waiters_on fd d t = [].
 Proof.
-  intros t fd t' H. cbn [ok_step] in H. destruct (waiters_on fd t); [reflexivity|]. inversion H.
+  intros t d fd t' H. cbn [ok_step] in H. destruct (waiters_on fd d t); [reflexivity|]. inversion H.
 Qed.
 
-(** the recorded finding: a registration outlives the wait that made it *)
-Definition witness_missed : list op := [WaitT 13712591878437130464 1; Wait 440535360 1; Ready 1].
+Lemma wake_hits : forall t d fd tok hit woken t' c,
+  ok_step t (Ready d fd) (OEvent tok hit woken) = (true, t') -> In (c, (fd, d)) t -> In c woken.
+Proof.
+  intros t d fd tok hit woken t' c H I. apply (ready_clause t d fd tok hit woken t' H c).
+  apply waiters_on_spec. now exists fd, d.
+Qed.
+
+Lemma no_cross_wake : forall t d fd tok hit woken t' c,
+  ok_step t (Ready d fd) (OEvent tok hit woken) = (true, t') -> In c woken ->
+  exists f w, In (c, (f, w)) t /\ f = fd /\ w = d.
+Proof.
+  intros t d fd tok hit woken t' c H I. apply waiters_on_spec.
+  now apply (ready_clause t d fd tok hit woken t' H c).
+Qed.
+
+Lemma no_event_no_waiter : forall t d fd t' c,
+  ok_step t (Ready d fd) ONoEvent = (true, t') -> ~ In (c, (fd, d)) t.
+Proof.
+  intros t d fd t' c H I. pose proof (ready_clause_noevent t d fd t' H) as E.
+  assert (X : In c (waiters_on fd d t)) by (apply waiters_on_spec; now exists fd, d).
+  rewrite E in X. destruct X.
+Qed.
+
+(** * The recorded findings *)
+Definition witness_missed : list op :=
+  [WaitT false 13712591878437130464 2; Wait false 440535360 2; Ready false 2].
 Definition witness_cross : list op :=
-  [WaitT 6297203254532200539 0; Wait 6297203254532200539 1; Ready 0].
+  [WaitT false 6297203254532200539 1; Wait false 6297203254532200539 2; Ready false 1].
+Definition witness_one_token : list op :=
+  [Wait true 13712591878437130464 1; Wait false 440535360 1; Ready true 1].
 
 Lemma refuted_missed : exists nfd ops, wf_C20 nfd ops = true /\ ok_C20 ops (run_C20 nfd ops) = false.
-Proof. exists 2, witness_missed. split; vm_compute; reflexivity. Qed.
+Proof. exists 3, witness_missed. split; vm_compute; reflexivity. Qed.
 
 Lemma refuted_cross : exists nfd ops, wf_C20 nfd ops = true /\ ok_C20 ops (run_C20 nfd ops) = false
-  /\ run_C20 nfd ops = [ORegT true (Some 6297203254532200539) true; OReg true (Some 6297203254532200539);
+  /\ run_C20 nfd ops = [ORegT true (Some (true, false, 6297203254532200539)) true;
+                        OReg true (Some (true, false, 6297203254532200539));
                         OEvent 6297203254532200539 true [6297203254532200539]].
-Proof. exists 2, witness_cross. repeat split; vm_compute; reflexivity. Qed.
+Proof. exists 3, witness_cross. repeat split; vm_compute; reflexivity. Qed.
 
-Lemma wake_hits : forall t fd tok hit woken t' c,
-  ok_step t (Ready fd) (OEvent tok hit woken) = (true, t') -> In c (waiters_on fd t) -> In c woken.
-Proof. intros t fd tok hit woken t' c H. now apply (ready_clause t fd tok hit woken t' H c). Qed.
+Lemma refuted_one_token : exists nfd ops, wf_C20 nfd ops = true /\ ok_C20 ops (run_C20 nfd ops) = false
+  /\ run_C20 nfd ops = [OReg true (Some (false, true, 13712591878437130464));
+                        OReg true (Some (true, true, 440535360));
+                        OEvent 440535360 true [440535360]]
+  /\ fst (tags_C20 nfd ops) = [TagOneToken].
+Proof. exists 2, witness_one_token. repeat split; vm_compute; reflexivity. Qed.
 
-Lemma no_cross_wake : forall t fd tok hit woken t' c,
-  ok_step t (Ready fd) (OEvent tok hit woken) = (true, t') -> In c woken -> In c (waiters_on fd t).
-Proof. intros t fd tok hit woken t' c H. now apply (ready_clause t fd tok hit woken t' H c). Qed.
+(** * Close and reuse of a descriptor number, after ANY history *)
+
+Lemma run_from_app : forall ops1 ops2 l,
+  fst (run_from l (ops1 ++ ops2)) = fst (run_from l ops1) ++ fst (run_from (snd (run_from l ops1)) ops2).
+Proof.
+  intros ops1. induction ops1 as [|o ops1 IH]; intros ops2 l; cbn [app run_from].
+  - reflexivity.
+  - destruct (step l o) as [l1 r]. specialize (IH ops2 l1).
+    destruct (run_from l1 (ops1 ++ ops2)) as [rs lf]. destruct (run_from l1 ops1) as [rs1 lf1].
+    cbn [fst snd] in *. now rewrite IH.
+Qed.
+
+(** what holds after every history, well-formed or not: the selector invariant, and a coroutine
+    identity that was never used is not suspended *)
+Definition rinv (c : Z) (l : loop) : Prop := sinv (l_sel l) /\ aget c (l_sys l) = None.
+
+Lemma step_rinv : forall c l o, rinv c l ->
+  match o with Wait _ c' _ | WaitT _ c' _ => negb (c' =? c) | _ => true end = true ->
+  rinv c (fst (step l o)).
+Proof.
+  intros c l o [S N] F. unfold rinv. destruct (v_kern _ S) as [tb K]. destruct o as [d c' fd|d c' fd|d fd|fd|d fd|fd|fd]; cbn [step].
+  - destruct (aget c' (l_sys l)); [now split|]. unfold begin_wait. apply negb_true_iff in F. rewrite Z.eqb_sym in F.
+    destruct d.
+    + destruct (add_write_spec _ tb S K fd c') as [ok [s' [E [S' _]]]]. rewrite E.
+      destruct ok; cbn [fst with_sys l_sel l_sys]; split; auto. now rewrite aget_aset, F.
+    + destruct (add_read_spec _ tb S K fd c') as [ok [s' [E [S' _]]]]. rewrite E.
+      destruct ok; cbn [fst with_sys l_sel l_sys]; split; auto. now rewrite aget_aset, F.
+  - destruct (aget c' (l_sys l)); [now split|]. unfold begin_wait.
+    destruct d.
+    + destruct (add_write_spec _ tb S K fd c') as [ok [s' [E [S' _]]]]. rewrite E. now split.
+    + destruct (add_read_spec _ tb S K fd c') as [ok [s' [E [S' _]]]]. rewrite E. now split.
+  - destruct (aget fd (tbl (l_sel l) 0)) as [e|]; [|now split].
+    destruct (if d then k_w e else k_r e); [|now split].
+    cbn [fst l_sel l_sys]. split; [now apply sinv_deliver|].
+    destruct (zmem (decode (k_tok e)) (l_cotok l)); [|exact N].
+    rewrite aget_arem, N. now destruct (c =? decode (k_tok e)).
+  - destruct (el_del_event_spec _ tb fd S K) as [s' [E [S' _]]]. rewrite E.
+    cbn [fst with_sys with_sel l_sel l_sys]. split; [exact S'|]. now rewrite aget_void_fd, N.
+  - destruct d.
+    + destruct (el_del_write_spec _ tb fd S K) as [s' [E [S' _]]]. rewrite E.
+      cbn [fst with_sys with_sel l_sel l_sys]. split; [exact S'|]. now rewrite aget_void_dir, N.
+    + destruct (el_del_read_spec _ tb fd S K) as [s' [E [S' _]]]. rewrite E.
+      cbn [fst with_sys with_sel l_sel l_sys]. split; [exact S'|]. now rewrite aget_void_dir, N.
+  - destruct (el_del_event_spec _ tb fd S K) as [s' [E [S' [_ [Rr [Rw _]]]]]]. rewrite E.
+    cbn [fst with_sys with_sel l_sel l_sys]. split; [|now rewrite aget_void_fd, N].
+    apply sinv_os_close; [exact S'| |].
+    + rewrite Rr, remm_eq, Z.eqb_refl. reflexivity.
+    + rewrite Rw, remm_eq, Z.eqb_refl. reflexivity.
+  - cbn [fst with_sel l_sel l_sys]. split; [now apply sinv_os_open|exact N].
+Qed.
+
+Lemma run_rinv : forall c ops l, rinv c l -> fresh c ops = true -> rinv c (snd (run_from l ops)).
+Proof.
+  intros c ops. induction ops as [|o ops IH]; intros l I F; [exact I|].
+  unfold fresh in F. cbn [forallb] in F. apply andb_true_iff in F as [F1 F2].
+  cbn [run_from]. pose proof (step_rinv c l o I F1) as I1. destruct (step l o) as [l1 r]. cbn [fst] in I1.
+  specialize (IH l1 I1 F2). destruct (run_from l1 ops) as [rs lf]. exact IH.
+Qed.
+
+Lemma add_fresh : forall s tb fd c (d : bool), sinv s -> s_kern s = [tb] -> zmem fd (s_open s) = true ->
+  zmem fd (s_rrec s) = false -> zmem fd (s_wrec s) = false ->
+  exists s', (if d then add_write_event s 0 fd c else add_read_event s 0 fd c) = (true, s')
+             /\ aget fd (tbl s' 0) = Some {| k_r := negb d; k_w := d; k_tok := encode c |}.
+Proof.
+  intros s tb fd c d S K Op Er Ew.
+  assert (G : aget fd tb = None).
+  { rewrite <- (tbl_one s tb K). apply (absent_iff s fd S). now split. }
+  destruct d; [unfold add_write_event|unfold add_read_event];
+    rewrite (mark_id s fd S), Er, Ew; unfold register, k_add; rewrite (tbl_one s tb K), Op, G; cbn [negb];
+    (eexists; split; [reflexivity|]);
+    unfold tbl; cbn [s_kern with_r with_w with_tokfd with_tbl]; rewrite K; cbn [lset nth];
+    now rewrite aget_aset, Z.eqb_refl.
+Qed.
+
+Lemma reuse_tail : forall l fd d c, sinv (l_sel l) -> aget c (l_sys l) = None -> 0 <= c < 2 ^ 64 ->
+  exists b, fst (run_from l [Close fd; Reopen fd; Wait d c fd; Ready d fd])
+            = [OClose b; OReopen; OReg true (Some (negb d, d, c)); OEvent c true [c]].
+Proof.
+  intros l fd d c S N Hc. destruct (v_kern _ S) as [tb K].
+  destruct (el_del_event_spec _ tb fd S K) as [s1 [E [S1 [Ro [Rr [Rw _]]]]]].
+  assert (N1 : zmem fd (s_rrec s1) = false) by (rewrite Rr, remm_eq, Z.eqb_refl; reflexivity).
+  assert (N2 : zmem fd (s_wrec s1) = false) by (rewrite Rw, remm_eq, Z.eqb_refl; reflexivity).
+  pose proof (sinv_os_open _ fd (sinv_os_close s1 fd S1 N1 N2)) as S3.
+  set (s3 := os_open (os_close s1 fd) fd) in *.
+  destruct (v_kern _ S3) as [tb3 K3].
+  assert (Op : zmem fd (s_open s3) = true).
+  { subst s3. cbn [os_open s_open with_open]. now rewrite zmem_zadd, Z.eqb_refl. }
+  destruct (add_fresh s3 tb3 fd c d S3 K3 Op N1 N2) as [s4 [E4 G4]].
+  assert (Enc : encode c = c).
+  { unfold encode, W64. change (2 ^ 64) with 18446744073709551616 in Hc. apply Z.mod_small. lia. }
+  exists (zmem fd (s_open s1)).
+  cbn [run_from step]. rewrite E. cbn [with_sys with_sel l_sel l_sys l_cotok l_ctags].
+  rewrite aget_void_fd, N. unfold begin_wait. cbn [with_sys with_sel l_sel l_sys l_cotok l_ctags]. fold s3.
+  destruct d; rewrite E4; unfold kdata; cbn [with_sys l_sel l_sys l_cotok l_ctags]; rewrite !G4; cbn [k_r k_w k_tok negb];
+    rewrite Enc; unfold decode, W64; change (2 ^ 64) with 18446744073709551616 in Hc;
+    rewrite (Z.mod_small c) by lia; rewrite zmem_zadd, Z.eqb_refl; cbn [orb];
+    rewrite aget_aset, Z.eqb_refl; reflexivity.
+Qed.
+
+Lemma reuse_wakes : forall nfd ops fd d c,
+  0 <= c < 2 ^ 64 -> fresh c ops = true ->
+  exists b, run_C20 nfd (ops ++ [Close fd; Reopen fd; Wait d c fd; Ready d fd])
+            = run_C20 nfd ops ++ [OClose b; OReopen; OReg true (Some (negb d, d, c)); OEvent c true [c]].
+Proof.
+  intros nfd ops fd d c Hc F. unfold run_C20. rewrite run_from_app.
+  assert (I0 : rinv c (loop_init nfd)).
+  { split; [exact (proj1 (yinv_init nfd))|reflexivity]. }
+  destruct (run_rinv c ops (loop_init nfd) I0 F) as [S N].
+  destruct (reuse_tail _ fd d c S N Hc) as [b E]. exists b. now rewrite E.
+Qed.
